@@ -132,6 +132,84 @@ def line_level_leg(c, wd, max_preemptions, max_runs):
     c.extra['line_schedules'] = n
 
 
+SECOND_AGENT_HOST = '''
+HOOK = None
+
+
+def inner(n):
+    return n * 2
+
+
+def outer(n):
+    x = inner(n) + 1
+    if HOOK is not None:
+        HOOK()
+    return x
+'''
+
+
+def second_agent_leg(c, wd):
+    """What one agent has pending for a thread is that agent's: while a spanned / captured function is running, a SECOND
+    agent comes and goes on the same thread (a library that starts its own agent lazily; a test fixture) - constructed
+    only, started, or started and shut down again. The first agent's span is still closed once and its deferred
+    snapshot still delivered, with the function's own return value."""
+    import sys
+    from .. import rig as R
+    from deep.processor.trigger_handler import TriggerHandler
+    mod, path, marks = R.write_host(wd, SECOND_AGENT_HOST)
+    base = path.rsplit('/', 1)[-1]
+    inf = {'fire_count': '-1', 'fire_period': '0'}
+    for label in ('no second agent', 'constructed', 'started and shut down', 'started'):
+        plugin = R.role_plugin('rec', {'span'})
+        rg = R.Rig(plugins=[plugin])
+        other = R.Rig()
+        made = []
+
+        def hook(label=label):
+            if label == 'no second agent':
+                return
+            h2 = TriggerHandler(other.cfg, other.push)
+            made.append(h2)
+            if label != 'constructed':
+                before = sys.gettrace()
+                h2.start()
+                if label == 'started and shut down':
+                    h2.shutdown()
+                else:
+                    sys.settrace(before)      # (this run goes on under the harness's trace function)
+        try:
+            rg.install([dict(id='t-span', path=base, line=0, args=dict(inf, span='method', method_name='outer', snapshot='no_collect')),
+                        dict(id='t-cap', path=base, line=0, args=dict(inf, stage='method_capture', method_name='outer'))])
+            mod.HOOK = hook
+            res = rg.run(mod.outer, 4, only_file=path)
+            bad = None
+            spans = [(s_.name, s_.closed) for s_ in plugin.spans]
+            snaps = rg.snapshots()
+            caps = [(w.expression, snaps[0].var_lookup[w.result.vid].value) for w in snaps[0].watches
+                    if w.source == 'CAPTURE' and w.result is not None] if snaps else []
+            if res != ('ok', 9) or rg.escaped:
+                bad = 'host changed / handler raised: %r %r' % (res, rg.escaped)
+            elif len(spans) != 1 or spans[0][1] != 1:
+                bad = 'the span of the function: %s (opened once, to be closed once)' % (spans,)
+            elif len(snaps) != 1 or caps != [('return', '9')]:
+                bad = 'the deferred snapshot: %d delivered, captured %s (expected the return value 9)' % (len(snaps), caps)
+        finally:
+            mod.HOOK = None
+            for h2 in made:
+                try:
+                    h2.shutdown()
+                except BaseException:
+                    pass
+            other.close()
+            rg.close()
+        c.traces_validated += 1
+        c.note_case(key=('second-agent', label), nontrivial=True)
+        if bad:
+            p_ = c.save_replay({'kind': 'second-agent', 'second_agent': label, 'what': bad})
+            c.violation('a second agent %s on the thread while a spanned and captured function runs: %s' % (label, bad), p_)
+    sys.modules.pop(mod.__name__, None)
+
+
 def run(c):
     quick = c.tier == 'quick'
     rng = random.Random(c.seed)
@@ -167,6 +245,7 @@ def run(c):
                                                [[('a.f', [('call', 'a.g', [('line',)]), ('try', 'a.g', [('raise',)])])]])])
     c03.validate(c, traces, meta, lambda m: m['closes'] >= 1)
     c.extra['captures_completed'] = sum(m['closes'] for m in meta)
+    second_agent_leg(c, wd)
     line_level_leg(c, wd, 1 if quick else 2, 700 if quick else 6000)     # (700: every schedule with one forced switch)
 
 
